@@ -66,11 +66,11 @@ impl HybridImpressionInfo {
     }
 
     /// ## Errors
-    /// If deserialization fails.
-    /// ## Panics
-    /// If not enough delimiters are found in the input bytes.
+    /// If deserialization fails, including when the input is too short or has no delimiter.
     pub fn from_bytes(bytes: &[u8]) -> Result<Self, InvalidHybridReportError> {
-        let key_id = bytes[0];
+        let key_id = *bytes
+            .first()
+            .ok_or(InvalidHybridReportError::Length(bytes.len(), 1))?;
         Ok(Self { key_id })
     }
 }
@@ -186,15 +186,13 @@ impl HybridConversionInfo {
     }
 
     /// ## Errors
-    /// If deserialization fails.
-    /// ## Panics
-    /// If not enough delimiters are found in the input bytes.
+    /// If deserialization fails, including when the input is too short or has no delimiter.
     pub fn from_bytes(bytes: &[u8]) -> Result<Self, InvalidHybridReportError> {
         let mut pos = 0;
         let delimiter_pos = bytes[pos..]
             .iter()
             .position(|&b| b == 0)
-            .unwrap_or_else(|| panic!("not enough delimiters for HybridConversionInfo"));
+            .ok_or(InvalidHybridReportError::Length(bytes.len(), bytes.len() + 1))?;
         let conversion_site_domain = String::from_utf8(bytes[pos..pos + delimiter_pos].to_vec())
             .map_err(|e| {
                 InvalidHybridReportError::DeserializationError(
@@ -203,7 +201,9 @@ impl HybridConversionInfo {
                 )
             })?;
         pos += delimiter_pos + 1;
-        debug_assert!(pos + 3*8 + 1 == bytes.len(), "{}", format!("bytes for HybridConversionInfo::from_bytes has incorrect length. Expected: {}, Actual: {}", pos + 3*8 + 1, bytes.len()).to_string());
+        if pos + 3 * 8 + 1 != bytes.len() {
+            return Err(InvalidHybridReportError::Length(bytes.len(), pos + 3 * 8 + 1));
+        }
 
         let key_id = bytes[pos];
         pos += 1;
